@@ -46,7 +46,7 @@ Applicable(op, ins, outs) ==
     [] op \in {"hessian", "hessian_vector_product", "hessian_tensor_product", "grad_named", "multigrad_dict",
                "make_hvp", "holomorphic_grad"} -> outs = <<>>
     [] op \in {"jac_thru_value", "grad_thru_aux_and_grad"} -> outs = <<>>
-    [] op = "deriv" -> ins = <<>>
+    [] op = "deriv" -> TRUE          \* for a non-scalar argument: the forward derivative along the all-ones direction
     [] op = "make_ggnvp" -> Len(outs) = 1          \* the default g reduces over the last axis only
     [] op = "elementwise_grad" -> TRUE
     [] op = "jacobian_of_jacobian" -> Size(ins) * Size(ins) * Size(outs) <= 16
@@ -74,7 +74,7 @@ Expected(op, ins, outs, scale) ==
        [] op = "make_ggnvp" ->      \* J^T (J v) with the default g(y) = 0.5 * sum(y**2)
             [shape |-> ins, flat |-> Vec(n, LAMBDA i : SumTo(m, LAMBDA k : J(k, i) * SumTo(n, LAMBDA j : J(k, j) * V(j))))]
        [] op \in {"make_jvp", "make_jvp_reversemode"} -> [shape |-> outs, flat |-> Vec(m, LAMBDA k : SumTo(n, LAMBDA i : J(k, i) * V(i)))]
-       [] op = "deriv" -> [shape |-> outs, flat |-> Vec(m, LAMBDA k : J(k, 1))]
+       [] op = "deriv" -> [shape |-> outs, flat |-> Vec(m, LAMBDA k : SumTo(n, LAMBDA i : J(k, i)))]
        [] op = "jacobian_of_jacobian" -> [shape |-> outs \o ins \o ins,
                                           flat |-> [q \in 1..(m * n * n) |-> Hes(((q - 1) \div (n * n)) + 1, (((q - 1) \div n) % n) + 1, ((q - 1) % n) + 1, scale)]]
 
